@@ -3,13 +3,19 @@
   and evaluates the specification predicate on the implementation's own trace.
 
   Input lines (stdin):
-    C <kind h|s> <max> <volatile 0|1> <flapping 0|1>            start of a case (fresh, pending object)
-    R <state> <execStart> <now> <active> | <accepted> <state> <stype> <attempt> <lastHard> <ev>
+    C <kind h|s> <max> <volatile 0|1> <flapping 0|1> [<topology>]   start of a case (fresh, pending object)
+    S <state> <stype> <attempt> <lastHard> <prevHard> <exec> | <obs>  start state restored as from a state file
+    R <state> <execStart> <now> <via> | <obs> [; <reachable> <acknowledged> <flapping> <inDowntime>]
+    P … / A … / D … / F …                                            environment changes (parent result,
+                                                                     acknowledgement, downtime, flags): the property
+                                                                     gives them no influence, the model ignores them
+  <obs> = <accepted> <state> <stype> <attempt> <lastHard> <ev> <prevHard> <vaState> <vaType> <vaAttempt>
+          <apiState> <apiLastState> <apiLastHard>
   Output lines:
     MISMATCH line=<n> case=<k> impl=<...> model=<...>
     SPECFAIL line=<n> case=<k> clause=<name>
     BADLINE line=<n>
-    STATS cases=<..> steps=<..> dropped=<..> ev_none=.. ev_soft=.. ev_hard=.. soft=.. hard=.. nontrivial=..
+    STATS cases=<..> steps=<..> dropped=<..> ev_none=.. ev_soft=.. ev_hard=.. soft=.. hard=.. nontrivial=.. …
 -/
 import IcingaModel.Common.Proto
 import IcingaModel.C01.Model
@@ -21,6 +27,7 @@ structure DSt where
   cfg : Cfg := { kind := .service, max := 1, volatile := false }
   st : St := pending
   sp : SpecSt := specInit
+  h : HistSt := histInit
   caseNo : Nat := 0
   steps : Nat := 0
   dropped : Nat := 0
@@ -34,21 +41,48 @@ structure DSt where
   nontrivial : Nat := 0
   mismatches : Nat := 0
   specfails : Nat := 0
+  starts : Nat := 0               -- cases with a restored start state
+  startsKnown : Nat := 0          -- … of which held to the whole property at once
+  envOps : Nat := 0
+  unreach : Nat := 0              -- results processed while the object was unreachable
+  unreachSoft : Nat := 0          -- … that left it in a soft state (what an "unreachable ⇒ hard" shortcut would change)
+  acked : Nat := 0
+  flapping : Nat := 0
+  inDowntime : Nat := 0
+  viaApi : Nat := 0
+  viaExtCmd : Nat := 0
+  hardEvAfterHard : Nat := 0      -- hard events with a known previous hard state (previous_hard_state checked)
 
 def showObs (o : Obs) : String :=
-  s!"{showBool o.accepted},{o.state.toNat},{o.stype.toNat},{o.attempt},{o.lastHard.toNat},{o.ev.toNat}"
+  s!"{showBool o.accepted},{o.state.toNat},{o.stype.toNat},{o.attempt},{o.lastHard.toNat},{o.ev.toNat},{o.prevHard},{o.vaState},{o.vaType},{o.vaAttempt},{o.apiState},{o.apiLastState},{o.apiLastHard}"
 
 def parseObs (ws : List String) : Option Obs :=
   match ws with
-  | [a, s, t, at_, lh, e] => do
+  | [a, s, t, at_, lh, e, ph, vs, vt, va, as, als, alh] => do
     let a ← parseBool? a
     let s ← (parseNat? s) >>= SState.ofNat?
     let t ← (parseNat? t) >>= SType.ofNat?
     let at_ ← parseNat? at_
     let lh ← (parseNat? lh) >>= SState.ofNat?
     let e ← (parseNat? e) >>= Ev.ofNat?
-    pure { accepted := a, state := s, stype := t, attempt := at_, lastHard := lh, ev := e }
+    let ph ← parseNat? ph
+    let vs ← parseNat? vs
+    let vt ← parseNat? vt
+    let va ← parseNat? va
+    let as ← parseNat? as
+    let als ← parseNat? als
+    let alh ← parseNat? alh
+    pure { accepted := a, state := s, stype := t, attempt := at_, lastHard := lh, ev := e, prevHard := ph,
+           vaState := vs, vaType := vt, vaAttempt := va, apiState := as, apiLastState := als, apiLastHard := alh }
   | _ => none
+
+/-- Split the text after `|` at `;` into the observation and the environment flags. -/
+def splitSemi (ws : List String) : List String × List String :=
+  (ws.takeWhile (· ≠ ";"), (ws.dropWhile (· ≠ ";")).drop 1)
+
+def stOfObs (o : Obs) (old : St) (lastExec : Option Int) : St :=
+  { state := o.state, stype := o.stype, attempt := o.attempt, lastHard := o.lastHard,
+    hist := o.lastHard.toNat * 100 + o.prevHard, lastState := old.state, lastExec := lastExec }
 
 def handle (d : DSt) (n : Nat) (line : String) : IO DSt := do
   let ws := words line
@@ -58,37 +92,65 @@ def handle (d : DSt) (n : Nat) (line : String) : IO DSt := do
     match (if k == "h" then some Kind.host else if k == "s" then some Kind.service else none),
           parseNat? mx, parseBool? vol with
     | some k, some mx, some vol =>
-      return { d with cfg := { kind := k, max := mx, volatile := vol }, st := pending, sp := specInit,
+      return { d with cfg := { kind := k, max := mx, volatile := vol }, st := pending, sp := specInit, h := histInit,
                       caseNo := d.caseNo + 1, caseFailed := false, caseHadHard := false }
     | _, _, _ => IO.println s!"BADLINE line={n}"; return d
+  | "S" :: rest =>
+    let (pre, post) := splitBar rest
+    match pre with
+    | [st, ty, at_, lh, ph, ex] =>
+      match (parseNat? st) >>= SState.ofNat?, (parseNat? ty) >>= SType.ofNat?, parseNat? at_,
+            (parseNat? lh) >>= SState.ofNat?, parseNat? ph, parseInt? ex with
+      | some st, some ty, some at_, some lh, some ph, some ex =>
+        -- the hypotheses of `model_trace_meets_spec`: attempt ≥ 1, history word below 10000
+        if at_ < 1 || ph > 99 then
+          IO.println s!"BADLINE line={n}"; return d
+        else
+          let s0 : St := { state := st, stype := ty, attempt := at_, lastHard := lh, hist := lh.toNat * 100 + ph,
+                           lastState := st, lastExec := some ex }
+          let mut d := { d with st := s0, sp := specStart d.cfg s0, h := histStart d.cfg s0, starts := d.starts + 1 }
+          if d.sp.everOk then d := { d with startsKnown := d.startsKnown + 1 }
+          match parseObs post with
+          | some io =>
+            let mo := stObs d.cfg s0
+            if mo != io then
+              IO.println s!"MISMATCH line={n} case={d.caseNo} impl={showObs io} model={showObs mo}"
+              d := { d with mismatches := d.mismatches + 1 }
+            -- the specification reads the implementation's own observation of the start state
+            if d.h.last.isSome then d := { d with h := { d.h with last := some io } }
+          | none => IO.println s!"BADLINE line={n}"
+          return d
+      | _, _, _, _, _, _ => IO.println s!"BADLINE line={n}"; return d
+    | _ => IO.println s!"BADLINE line={n}"; return d
   | "R" :: rest =>
     let (pre, post) := splitBar rest
-    match pre, parseObs post with
-    | [st, es, nw, _act], some io =>
+    let (obsW, envW) := splitSemi post
+    match pre, parseObs obsW with
+    | [st, es, nw, via], some io =>
       match (parseNat? st) >>= SState.ofNat?, parseInt? es, parseInt? nw with
       | some rs, some es, some nw =>
         let r : Res := { state := rs, execStart := es, now := nw }
         let p := step d.cfg d.st r
-        let mo := obsOf p
+        let mo := obsOf d.cfg p
         let mut d := { d with steps := d.steps + 1 }
+        if via == "2" then d := { d with viaApi := d.viaApi + 1 }
+        if via == "3" then d := { d with viaExtCmd := d.viaExtCmd + 1 }
         if mo != io then
           IO.println s!"MISMATCH line={n} case={d.caseNo} impl={showObs io} model={showObs mo}"
           d := { d with mismatches := d.mismatches + 1 }
-        -- specification on the implementation's own observation
-        if io.accepted then
-          match specStep d.cfg d.sp rs io with
-          | some cl =>
-            if !d.caseFailed then
-              IO.println s!"SPECFAIL line={n} case={d.caseNo} clause={cl.name}"
-            d := { d with specfails := d.specfails + 1, caseFailed := true }
-          | none => pure ()
-          d := { d with sp := specNext d.cfg d.sp rs }
-        else
+        -- the specification on the implementation's own observation
+        if io.accepted && io.ev == .hard && d.h.hardAt.isSome then
+          d := { d with hardEvAfterHard := d.hardEvAfterHard + 1 }
+        let (cl, sp', h') := fullStep d.cfg d.sp d.h r io
+        match cl with
+        | some cl =>
+          if !d.caseFailed then
+            IO.println s!"SPECFAIL line={n} case={d.caseNo} clause={cl.name}"
+          d := { d with specfails := d.specfails + 1, caseFailed := true }
+        | none => pure ()
+        d := { d with sp := sp', h := h' }
+        if !io.accepted then
           d := { d with dropped := d.dropped + 1 }
-          if !mayDrop d.st.lastExec es then
-            if !d.caseFailed then
-              IO.println s!"SPECFAIL line={n} case={d.caseNo} clause={Clause.droppedAlthoughNotOlder.name}"
-            d := { d with specfails := d.specfails + 1, caseFailed := true }
         -- histogram
         d := match io.ev with
           | .none => { d with evNone := d.evNone + 1 }
@@ -99,18 +161,30 @@ def handle (d : DSt) (n : Nat) (line : String) : IO DSt := do
           | .hard => { d with hardN := d.hardN + 1 }
         if io.stype == .hard && !isOK d.cfg.kind io.state && !d.caseHadHard then
           d := { d with caseHadHard := true, nontrivial := d.nontrivial + 1 }
+        match envW with
+        | [re, ak, fl, dt] =>
+          if re == "0" && io.accepted then
+            d := { d with unreach := d.unreach + 1 }
+            if io.stype == .soft then d := { d with unreachSoft := d.unreachSoft + 1 }
+          if ak == "1" then d := { d with acked := d.acked + 1 }
+          if fl == "1" then d := { d with flapping := d.flapping + 1 }
+          if dt == "1" then d := { d with inDowntime := d.inDowntime + 1 }
+        | _ => pure ()
         -- follow the model (it is the oracle for the diff); on a mismatch resynchronise on the
         -- implementation so that one divergence is reported once
         let st' : St := if mo != io then
-            { state := io.state, stype := io.stype, attempt := io.attempt, lastHard := io.lastHard,
-              lastExec := if io.accepted then some es else d.st.lastExec }
+            stOfObs io d.st (if io.accepted then some es else d.st.lastExec)
           else p.1
         return { d with st := st' }
       | _, _, _ => IO.println s!"BADLINE line={n}"; return d
     | _, _ => IO.println s!"BADLINE line={n}"; return d
-  | _ => IO.println s!"BADLINE line={n}"; return d
+  | op :: _ =>
+    if op == "P" || op == "A" || op == "D" || op == "F" then
+      return { d with envOps := d.envOps + 1 }
+    else
+      IO.println s!"BADLINE line={n}"; return d
 
 def main : IO Unit := do
   let stdin ← IO.getStdin
   let d ← foldLines stdin handle ({} : DSt)
-  IO.println s!"STATS cases={d.caseNo} steps={d.steps} dropped={d.dropped} ev_none={d.evNone} ev_soft={d.evSoft} ev_hard={d.evHard} soft={d.softN} hard={d.hardN} nontrivial={d.nontrivial} mismatches={d.mismatches} specfails={d.specfails}"
+  IO.println s!"STATS cases={d.caseNo} steps={d.steps} dropped={d.dropped} ev_none={d.evNone} ev_soft={d.evSoft} ev_hard={d.evHard} soft={d.softN} hard={d.hardN} nontrivial={d.nontrivial} starts={d.starts} starts_known={d.startsKnown} envops={d.envOps} unreachable={d.unreach} unreachable_soft={d.unreachSoft} acked={d.acked} flapping={d.flapping} in_downtime={d.inDowntime} via_api={d.viaApi} via_extcmd={d.viaExtCmd} prev_hard_checked={d.hardEvAfterHard} mismatches={d.mismatches} specfails={d.specfails}"
